@@ -9,7 +9,8 @@ Q2 identities over symbolic parameters, prices and an arbitrary solution vector 
 import z3
 
 from .. import scen, common, sym, lpsem
-from ..sym import lift as zl
+from ..sym import Sym, lift as zl
+from .. import lift
 from . import c01
 
 PROP = 'C04'
@@ -28,6 +29,8 @@ QUICK = [
     ('split_two_node', dict(T=4, freq='12h', unit='h', wacc=True), 'd', 'A'),
     ('split_unaligned', dict(T=5, freq='6h', unit='h'), 'd', 'A'),
     ('split_orderbook_last', dict(T=4, ob_last=True, orders=((0, 1, 2.0), (2, 4, -1.5), (3, 4, 1.0))), '2h', 'A'),
+    ('last_asset_outside_horizon', dict(T=3, wins=((0, 3), (1, 3), (6, 8))), None, 'B'),
+    ('last_asset_outside_horizon_split', dict(T=4, wins=((0, 4), (1, 3), (6, 8))), '2h', 'A'),
 ]
 THOROUGH = QUICK + [
     ('two_node_T4_2n', dict(T=4, wacc=True, two_node_storage=True), None, 'B'),
@@ -43,7 +46,7 @@ THOROUGH = QUICK + [
     ('split_orderbook', dict(T=4, orders=((0, 1, 2.0), (2, 4, -1.5), (1, 2, 1.0))), '2h', 'A'),
     ('split_T6_day_unit', dict(T=6, freq='8h', unit='d', wacc=True), 'd', 'A'),
 ]
-SHAPE_OF = dict(c01.SHAPE_OF, split_orderbook_last='orderbook', contract_storage_win='contract_storage', orderbook_outside='orderbook',
+SHAPE_OF = dict(c01.SHAPE_OF, last_asset_outside_horizon='windows', last_asset_outside_horizon_split='windows', split_orderbook_last='orderbook', contract_storage_win='contract_storage', orderbook_outside='orderbook',
                 two_node_T4_2n='two_node', chp='plant', scaled_take='scaled', split_T6_day_unit='two_node',
                 periodic_transport_dur='periodic')
 BOUNDS = dict(quick='shapes %s, T<=8, all numbers symbolic (Level B; split at Level A)' % [c[0] for c in QUICK],
@@ -53,12 +56,35 @@ OUTSIDE = ['SLP problems', 'longer horizons']
 
 def cases(tier, seed):
     lst = THOROUGH if tier == 'thorough' else QUICK
-    return [(cid, dict(shape=SHAPE_OF.get(cid, cid), kw=dict(kw), split=split, level=level)) for cid, kw, split, level in lst]
+    out = [(cid, dict(shape=SHAPE_OF.get(cid, cid), kw=dict(kw), split=split, level=level)) for cid, kw, split, level in lst]
+    # two-stage stochastic problems (make_slp): the same accounting identities on the extended problem
+    out.append(('slp_two_node', dict(shape='two_node', kw=dict(T=3), split='slp', level='A', slp=dict(boundary=1, S=2))))
+    out.append(('slp_contract_storage', dict(shape='contract_storage', kw=dict(T=3, wacc=True), split='slp', level='A', slp=dict(boundary=2, S=1))))
+    return out
 
 
-def run_case(case_id, tier, seed, shape, kw, split, level):
+def slp_scenario(D, shape, kw, boundary, S, env=None):
+    """make_slp problem + the real extract_output on a symbolic (or concrete) solution vector, as a scen.Scenario"""
+    from . import c17
+    eao = lift.import_eao()
+    sh, op_base, scen_ops, slp = c17.scenario(D, shape, kw, boundary, S)
+    sh3 = c17.scenario.last_shape
+    sc = scen.Scenario()
+    sc.sh, sc.op, sc.ops = sh3, slp, [slp]
+    sc.blocks = []
+    n = len(slp.c)
+    sc.x = common.sym_x(n) if D.symbolic else common.concrete_x(env, n)
+    sc.value = Sym.var('value') if D.symbolic else float((env or {}).get('value', 0.0))
+    sc.out = eao.io.extract_output(sh3.portf, slp, eao.optimization.Results(value=sc.value, x=sc.x, duals=None))
+    return sc
+
+
+def run_case(case_id, tier, seed, shape, kw, split, level, slp=None):
     rec = lpsem.Rec(PROP, case_id)
-    res = scen.explore(shape, kw, split=split, level=level)
+    if split == 'slp':
+        res = lift.explore_build(lambda D: slp_scenario(D, shape, kw, slp['boundary'], slp['S']), level=level)
+    else:
+        res = scen.explore(shape, kw, split=split, level=level)
     rec.paths = len(res)
     validated = False
     for pi, (path, D) in enumerate(res):
@@ -81,6 +107,17 @@ def run_case(case_id, tier, seed, shape, kw, split, level):
         rec.twin('p%d/total' % pi, assume, total_dcf == val + 1)
         rec.prove('p%d/total' % pi, assume, total_dcf == val, form='Q2', info=dict(kind='total'))
         # per asset, blocks from the recorded set-up calls
+        if split == 'slp':
+            # per asset: variables of the asset by its mapping rows (the SLP appends per-scenario copies; blocks are not contiguous)
+            for a in sc.sh.portf.assets:
+                mp = sc.op.mapping
+                idx = sorted(set(int(i) for i in mp.index[mp['asset'] == a.name]))
+                own = -common.z3sum([c[i] * x[i] for i in idx])
+                rec.prove('p%d/asset/%s' % (pi, a.name), assume, common.z3sum(list(dcf[a.name].values)) == own, form='Q2',
+                          info=dict(kind='asset', asset=a.name, idx=idx))
+            if not validated:
+                validated = scen.validation_request(rec, sc, D, path, seed, extra_assume=[])
+            continue
         if sum(b.n for b in sc.blocks) != n:
             rec.note('block sizes %s do not add up to n=%d' % ([(b.asset, b.n) for b in sc.blocks], n))
             rec.obligations.append(dict(name='p%d/blocks' % pi, verdict='unknown', secs=0, form='Q2'))
@@ -103,6 +140,10 @@ def run_case(case_id, tier, seed, shape, kw, split, level):
 
 
 def observe(case, kwargs, env, rq):
+    if kwargs.get('split') == 'slp':
+        D = lift.Domain(theta=env)
+        sc = slp_scenario(D, kwargs['shape'], kwargs['kw'], kwargs['slp']['boundary'], kwargs['slp']['S'], env=env)
+        return scen.observation(sc)
     return scen.observe(case, kwargs, env, rq)
 
 
